@@ -23,6 +23,7 @@ package main
 //
 //	stale-after-failure   an object is returned for n while no creation of n is running and none has completed
 //	early-not-unique      two different objects returned for n during one creation of n
+//	early-lost            a lookup of n returns nil during a creation of n although an early reference of n was handed out before
 //	early-factory-twice   the early-reference factory produced an object twice, or ran again after it had produced one
 //	published-changed     after a creation of n completed: another object / nil / an error for n, or n reported in creation
 //	recreated             the body of a creation of n is entered although n is published, or while n is being created
@@ -30,6 +31,15 @@ package main
 //	factory-half-built    (ii) GetComponentByName(n) succeeds although Init of n never succeeded
 //	factory-recreated     (ii) Init of n runs again after n was returned successfully
 //	factory-identity      (ii) two successful calls for n return different instances
+//	factory-left-in-cache (ii) a probe `~n` at rest (no creation running) finds an object / an error / an in-creation mark for a
+//	                      name n that never completed a creation: a failed creation left something in a cache level
+//
+// (ii) optional header token `ask=<comp>:<target>:<mode>:<times>,…`: Init of <comp> asks the factory
+// (App.GetComponentByName, re-entrant) for <target> during its first <times> runs; <target> is a component of the variant or
+// a name WITHOUT definition (m0, m1); when the lookup fails Init returns the error raw (mode r), wrapped with %w (w), as a
+// fresh error without cause chain (n), or ignores it (s). `calls=` may name m0/m1 (top-level lookup of an unknown name) and
+// `~<n>` = probe of the registry at rest: GetSingleton(n,false), GetSingleton(n,true) through the tracer (recorded, replayed
+// by the model like every other call).
 
 import (
 	"errors"
@@ -224,7 +234,7 @@ type regOracle struct {
 }
 
 // the most telling signature is reported when one history trips several
-var regSigOrder = []string{"stale-after-failure", "published-changed", "early-not-unique", "early-factory-twice", "recreated", "in-creation-flag"}
+var regSigOrder = []string{"stale-after-failure", "published-changed", "early-not-unique", "early-lost", "early-factory-twice", "recreated", "in-creation-flag"}
 
 func (o *regOracle) verdict() string {
 	for _, sig := range regSigOrder {
@@ -288,6 +298,9 @@ func (o *regOracle) call(n int, obj string, err error, inCr bool) {
 			} else if o.early[n] != obj {
 				o.flag("early-not-unique", fmt.Sprintf("during one creation of %d both %s and %s were returned", n, o.early[n], obj))
 			}
+		} else if obj == "" && err == nil && o.early[n] != "" {
+			// all lookups during one creation observe the same early reference: once it exists, "nothing" is another answer
+			o.flag("early-lost", fmt.Sprintf("during one creation of %d the early reference %s was returned, a later lookup returned nil", n, o.early[n]))
 		}
 		return
 	}
@@ -624,6 +637,11 @@ func regGen(rng *hx.Rng, n int, tier string, w *hx.Writer) {
 		r := rng.Fork()
 		runFactoryHistory(genFactoryHistory(r), []string{"factory"}, w)
 	}
+	// failures caused by a lookup of a name without definition (after the others, so that the earlier cases of a seed stay the same)
+	for i := 0; i < nFactory; i++ {
+		r := rng.Fork()
+		runFactoryHistory(genAskHistory(r), []string{"factory"}, w)
+	}
 }
 
 // ---------------------------------------------------------------- (ii) histories on the real factory
@@ -811,12 +829,85 @@ type fhCtl struct {
 	okInit   map[string]int
 	deps     map[string][]string // dependencies that do not depend back (acyclic edges of the variant)
 	viol     []string            // Init ran although such a dependency had not completed its own Init
+	asks     map[string][]*fhAsk // lookups issued by Init through the public API (own mutable copies)
+	lookup   func(name string) (any, error)
 }
+
+// fhAsk: Init of comp asks the factory for target during its first `times` runs
+type fhAsk struct {
+	comp, target string
+	mode         byte // 'r' return the error as it is, 'w' wrap with %w, 'n' new error without cause chain, 's' swallow
+	times        int
+}
+
+func (q *fhAsk) tok() string {
+	return q.comp + ":" + q.target + ":" + string(q.mode) + ":" + strconv.Itoa(q.times)
+}
+
+// names without any definition
+var fhMissing = []string{"m0", "m1"}
+
+func fhIsMissing(n string) bool { return n == "m0" || n == "m1" }
 
 // the acyclic edges of each variant (diamond: a<->r is a cycle, so neither direction is listed)
 var fhDeps = map[string]map[string][]string{
 	"chain":   {"a": {"b", "c"}, "b": {"c"}},
 	"diamond": {"a": {"l", "z"}, "l": {"z"}, "r": {"z"}},
+	"wmiss":   {"v": {"w"}},
+}
+
+// the wire points of each variant (holder -> components it is wired to)
+var fhWires = map[string]map[string][]string{
+	"chain":   {"a": {"b"}, "b": {"c"}},
+	"cycle":   {"x": {"y"}, "y": {"x"}},
+	"diamond": {"a": {"l", "r"}, "l": {"z"}, "r": {"z", "a"}},
+	"wmiss":   {"v": {"w"}},
+}
+
+// fhAcyclicDeps: the dependencies Init may rely on when Init methods also look components up (ask edges): d is listed for n
+// when a path of wire points leads from n to d and no component on that path after n lies on a cycle of wire points and
+// lookups (a component on such a cycle may legitimately be met as an early reference, i.e. before its Init). Without
+// lookups of components this is exactly fhDeps. Lookups only ever remove entries (more edges, more cycles).
+func fhAcyclicDeps(h *fhHistory) map[string][]string {
+	names := fhVariants[h.variant]
+	wires := fhWires[h.variant]
+	all := map[string][]string{}
+	for n, ds := range wires {
+		all[n] = append(all[n], ds...)
+	}
+	for _, q := range h.asks {
+		if !fhIsMissing(q.target) {
+			all[q.comp] = append(all[q.comp], q.target)
+		}
+	}
+	reach := func(edges map[string][]string, from string, ok func(string) bool) map[string]bool {
+		seen := map[string]bool{}
+		var walk func(string)
+		walk = func(n string) {
+			for _, d := range edges[n] {
+				if !seen[d] && ok(d) {
+					seen[d] = true
+					walk(d)
+				}
+			}
+		}
+		walk(from)
+		return seen
+	}
+	onCycle := map[string]bool{}
+	for _, n := range names {
+		onCycle[n] = reach(all, n, func(string) bool { return true })[n]
+	}
+	out := map[string][]string{}
+	for _, n := range names {
+		got := reach(wires, n, func(d string) bool { return !onCycle[d] })
+		for _, d := range names {
+			if got[d] && d != n {
+				out[n] = append(out[n], d)
+			}
+		}
+	}
+	return out
 }
 
 type fhBase struct {
@@ -832,6 +923,23 @@ func (b *fhBase) Init() error {
 	for _, d := range b.ctl.deps[b.name] {
 		if b.ctl.okInit[d] == 0 {
 			b.ctl.viol = append(b.ctl.viol, b.name+" before "+d)
+		}
+	}
+	for _, q := range b.ctl.asks[b.name] {
+		if q.times <= 0 || b.ctl.lookup == nil {
+			continue
+		}
+		q.times--
+		if _, err := b.ctl.lookup(q.target); err != nil {
+			switch q.mode {
+			case 'r':
+				return err
+			case 'w':
+				return fmt.Errorf("init of %s cannot get '%s': %w", b.name, q.target, err)
+			case 'n':
+				return errors.New("init of " + b.name + " cannot get '" + q.target + "': " + err.Error())
+			}
+			// 's': the failed lookup is ignored
 		}
 	}
 	if b.ctl.fail[b.name] > 0 {
@@ -879,11 +987,26 @@ type fhDiaR struct {
 }
 type fhDiaZ struct{ fhBase }
 
+// loose: three components without wire points (they meet only through lookups issued by Init)
+type fhLoose struct{ fhBase }
+
+// wmiss: v needs w, w has a required point naming a component that has no definition
+type fhWmV struct {
+	fhBase
+	W *fhWmW `wire:""`
+}
+type fhWmW struct {
+	fhBase
+	M *fhLoose `wire:"m0"`
+}
+
 var fhVariants = map[string][]string{
 	"single":  {"s"},
 	"chain":   {"a", "b", "c"},
 	"cycle":   {"x", "y"},
 	"diamond": {"a", "l", "r", "z"},
+	"loose":   {"p", "q", "r"},
+	"wmiss":   {"v", "w"},
 }
 
 func fhComponents(variant string, ctl *fhCtl) map[string]any {
@@ -897,6 +1020,10 @@ func fhComponents(variant string, ctl *fhCtl) map[string]any {
 		return map[string]any{"x": &fhCycX{fhBase: b("x")}, "y": &fhCycY{fhBase: b("y")}}
 	case "diamond":
 		return map[string]any{"a": &fhDiaA{fhBase: b("a")}, "l": &fhDiaL{fhBase: b("l")}, "r": &fhDiaR{fhBase: b("r")}, "z": &fhDiaZ{b("z")}}
+	case "loose":
+		return map[string]any{"p": &fhLoose{b("p")}, "q": &fhLoose{b("q")}, "r": &fhLoose{b("r")}}
+	case "wmiss":
+		return map[string]any{"v": &fhWmV{fhBase: b("v")}, "w": &fhWmW{fhBase: b("w")}}
 	}
 	return nil
 }
@@ -904,7 +1031,8 @@ func fhComponents(variant string, ctl *fhCtl) map[string]any {
 type fhHistory struct {
 	variant string
 	fail    map[string]int
-	calls   []string
+	calls   []string // a component name, a name without definition (m0, m1), or ~<name> = probe of the registry at rest
+	asks    []*fhAsk
 }
 
 func (h *fhHistory) header() string {
@@ -913,11 +1041,19 @@ func (h *fhHistory) header() string {
 	for _, n := range names {
 		fs = append(fs, n+":"+strconv.Itoa(h.fail[n]))
 	}
-	return "F " + h.variant + " fail=" + strings.Join(fs, ",") + " calls=" + strings.Join(h.calls, ",")
+	s := "F " + h.variant + " fail=" + strings.Join(fs, ",") + " calls=" + strings.Join(h.calls, ",")
+	if len(h.asks) > 0 {
+		var as []string
+		for _, q := range h.asks {
+			as = append(as, q.tok())
+		}
+		s += " ask=" + strings.Join(as, ",")
+	}
+	return s
 }
 
 func parseFhHeader(toks []string) *fhHistory {
-	if (len(toks) != 4 && len(toks) != 5) || toks[0] != "F" || !strings.HasPrefix(toks[2], "fail=") || !strings.HasPrefix(toks[3], "calls=") {
+	if len(toks) < 4 || len(toks) > 6 || toks[0] != "F" || !strings.HasPrefix(toks[2], "fail=") || !strings.HasPrefix(toks[3], "calls=") {
 		return nil
 	}
 	names, ok := fhVariants[toks[1]]
@@ -941,10 +1077,33 @@ func parseFhHeader(toks []string) *fhHistory {
 		h.fail[p[0]] = v
 	}
 	for _, c := range strings.Split(toks[3][6:], ",") {
-		if !valid[c] {
+		n := strings.TrimPrefix(c, "~")
+		if !valid[n] && !fhIsMissing(n) {
 			return nil
 		}
 		h.calls = append(h.calls, c)
+	}
+	for _, t := range toks[4:] {
+		switch {
+		case strings.HasPrefix(t, "api="): // what the public API answered when the line was recorded (informative)
+		case strings.HasPrefix(t, "ask="):
+			if h.asks != nil {
+				return nil
+			}
+			for _, e := range strings.Split(t[4:], ",") {
+				p := strings.Split(e, ":")
+				if len(p) != 4 || !valid[p[0]] || (!valid[p[1]] && !fhIsMissing(p[1])) || len(p[2]) != 1 || !strings.Contains("rwns", p[2]) {
+					return nil
+				}
+				v, err := strconv.Atoi(p[3])
+				if err != nil || v < 1 || v > 10 {
+					return nil
+				}
+				h.asks = append(h.asks, &fhAsk{comp: p[0], target: p[1], mode: p[2][0], times: v})
+			}
+		default:
+			return nil
+		}
 	}
 	return h
 }
@@ -970,12 +1129,115 @@ func genFactoryHistory(r *hx.Rng) *fhHistory {
 	return h
 }
 
+// genAskHistory: histories in which a creation fails because something it ran (Init) looked a name up that has NO definition,
+// directly or through enclosing creations (wire points, re-entrant GetComponentByName from Init), and the factory is used
+// again afterwards: retries of the failed names, lookups of the unknown name itself, probes of the cache levels at rest.
+func genAskHistory(r *hx.Rng) *fhHistory {
+	vs := []string{"single", "chain", "chain", "cycle", "cycle", "diamond", "diamond", "loose", "loose", "loose", "wmiss"}
+	h := &fhHistory{variant: vs[r.Intn(len(vs))], fail: map[string]int{}}
+	names := fhVariants[h.variant]
+	for _, n := range names {
+		h.fail[n] = 0
+	}
+	if r.P(1, 3) { // an ordinary failing Init next to the failing lookups
+		h.fail[names[r.Intn(len(names))]] = 1 + r.Intn(2)
+	}
+	mode := func() byte { return "wwwwrrrns"[r.Intn(9)] }
+	times := func() int { return []int{1, 1, 2, 9}[r.Intn(4)] }
+	missing := func() string { return fhMissing[r.Intn(len(fhMissing))] }
+	add := func(comp, target string, m byte) {
+		h.asks = append(h.asks, &fhAsk{comp: comp, target: target, mode: m, times: times()})
+	}
+	switch h.variant {
+	case "loose":
+		// a chain of re-entrant lookups p -> q [-> r] -> unknown name, sometimes closed to a cycle
+		add("p", "q", mode())
+		if r.Bool() {
+			add("q", "r", mode())
+			add("r", missing(), mode())
+			if r.P(1, 4) {
+				add("r", "p", mode())
+			}
+		} else {
+			add("q", missing(), mode())
+			if r.P(1, 4) {
+				add("q", "p", mode())
+			}
+		}
+	case "wmiss":
+		// the required point of w names a component without definition; sometimes Init lookups on top (never reached for w)
+		if r.Bool() {
+			add("v", missing(), mode())
+		}
+	default:
+		// the deeper components are the more likely ones: the failure passes through every enclosing creation
+		k := 1 + r.Intn(2)
+		for i := 0; i < k; i++ {
+			comp := names[len(names)-1-r.Intn((len(names)+1)/2)]
+			if r.P(1, 4) {
+				comp = names[r.Intn(len(names))]
+			}
+			target := missing()
+			if r.P(1, 5) {
+				target = names[r.Intn(len(names))]
+			}
+			add(comp, target, mode())
+		}
+	}
+	probeAll := func() {
+		for _, n := range names {
+			h.calls = append(h.calls, "~"+n)
+		}
+	}
+	pick := func() string {
+		if r.P(1, 2) {
+			return names[0]
+		}
+		return names[r.Intn(len(names))]
+	}
+	first := pick()
+	h.calls = append(h.calls, first)
+	if r.P(2, 3) {
+		probeAll()
+	}
+	h.calls = append(h.calls, first) // the retry right after a (probable) failure
+	for k := 1 + r.Intn(4); k > 0; k-- {
+		switch {
+		case r.P(1, 8):
+			h.calls = append(h.calls, missing())
+		case r.P(1, 5):
+			h.calls = append(h.calls, "~"+names[r.Intn(len(names))])
+		default:
+			h.calls = append(h.calls, pick())
+		}
+	}
+	if r.P(3, 4) {
+		// every component once more, then the levels at rest
+		for _, i := range r.Perm(len(names)) {
+			h.calls = append(h.calls, names[i])
+		}
+		probeAll()
+	}
+	return h
+}
+
 func runFactoryHistory(h *fhHistory, tags []string, w *hx.Writer) {
 	syslog.Level(syslog.LvFatal)
 	c := hx.Case{Tags: append(tags, "fh-"+h.variant)}
 	ctl := &fhCtl{fail: map[string]int{}, attempts: map[string]int{}, okInit: map[string]int{}, deps: fhDeps[h.variant]}
 	for k, v := range h.fail {
 		ctl.fail[k] = v
+	}
+	if len(h.asks) > 0 {
+		ctl.asks = map[string][]*fhAsk{}
+		for _, q := range h.asks {
+			cp := *q
+			ctl.asks[q.comp] = append(ctl.asks[q.comp], &cp)
+			if !fhIsMissing(q.target) {
+				ctl.deps = fhAcyclicDeps(h) // lookups between components: they may close cycles
+			}
+		}
+		c.Tags = append(c.Tags, "fh-ask")
 	}
 	comps := fhComponents(h.variant, ctl)
 	tr := newRegTracer()
@@ -1007,10 +1269,34 @@ func runFactoryHistory(h *fhHistory, tags []string, w *hx.Writer) {
 			results = append(results, "run-err")
 			return
 		}
+		ctl.lookup = a.GetComponentByName
 		succeeded := map[string]bool{}
 		attemptsAtSuccess := map[string]int{}
 		anyFail := false
 		for _, n := range h.calls {
+			if strings.HasPrefix(n, "~") {
+				// probe of the cache levels at rest, through the tracer (so the calls are part of the recorded history)
+				nm := n[1:]
+				m0, e0 := tr.GetSingleton(nm, false)
+				m1, e1 := tr.GetSingleton(nm, true)
+				inCr := tr.IsSingletonCurrentlyInCreation(nm)
+				seen := "nil"
+				switch {
+				case e0 != nil || e1 != nil:
+					seen = "err"
+				case m0 != nil || m1 != nil:
+					seen = "obj"
+				}
+				if inCr {
+					seen += "+"
+				}
+				results = append(results, n+":"+seen)
+				if ctl.okInit[nm] == 0 && seen != "nil" {
+					flag("factory-left-in-cache", fmt.Sprintf("no creation of %s ever completed (%d failed Init runs) and none is running, "+
+						"but the registry answers a lookup of %s with %s", nm, ctl.attempts[nm], nm, seen))
+				}
+				continue
+			}
 			got, err := a.GetComponentByName(n)
 			if err != nil {
 				results = append(results, n+":err")
@@ -1023,6 +1309,9 @@ func runFactoryHistory(h *fhHistory, tags []string, w *hx.Writer) {
 			results = append(results, n+":ok")
 			if ctl.okInit[n] == 0 {
 				flag("factory-half-built", fmt.Sprintf("GetComponentByName(%s) succeeds although Init of %s never succeeded (%d failed attempts)", n, n, ctl.attempts[n]))
+			}
+			if fhIsMissing(n) {
+				continue
 			}
 			if got != comps[n] {
 				flag("factory-identity", fmt.Sprintf("GetComponentByName(%s) returned another instance", n))
@@ -1099,6 +1388,15 @@ func regReplay(scn string, w *hx.Writer) {
 
 func regCorpus(w *hx.Writer) {
 	syslog.Level(syslog.LvFatal)
+	// the computed dependency sets coincide with the hand-written table when Init methods look nothing up
+	for v := range fhVariants {
+		got := fhAcyclicDeps(&fhHistory{variant: v})
+		for _, n := range fhVariants[v] {
+			if strings.Join(got[n], ",") != strings.Join(fhDeps[v][n], ",") {
+				panic("fhAcyclicDeps(" + v + ")[" + n + "] = " + strings.Join(got[n], ",") + ", table: " + strings.Join(fhDeps[v][n], ","))
+			}
+		}
+	}
 	for _, s := range []string{
 		// the trace of DESIGN C04: create 1 { lookup 1; lookup 1; create 2 { lookup 1 } } fails; lookup 1
 		"G 1 o1#5 [ L 1 1 o1#5 L 1 1 o1#9 G 2 x [ L 1 1 x ] o2#0 ] x L 1 1 x",
@@ -1135,7 +1433,28 @@ func regCorpus(w *hx.Writer) {
 		{variant: "cycle", fail: map[string]int{"x": 1, "y": 1}, calls: []string{"y", "x", "y", "x", "y"}},
 		{variant: "diamond", fail: map[string]int{"a": 0, "l": 0, "r": 1, "z": 0}, calls: []string{"a", "l", "a", "r"}},
 		{variant: "diamond", fail: map[string]int{"a": 1, "l": 0, "r": 0, "z": 1}, calls: []string{"a", "a", "r", "a"}},
+		// a creation fails because its Init asked the factory for a name without definition; the cause disappears, retry
+		{variant: "single", calls: []string{"s", "~s", "s", "s"}, asks: []*fhAsk{{"s", "m0", 'w', 1}}},
+		{variant: "single", calls: []string{"s", "s", "~s", "m0", "~m0", "s"}, asks: []*fhAsk{{"s", "m0", 'r', 9}}},
+		// the failing lookup is nested: a needs b needs c, Init of c (of b) asks for the unknown name
+		{variant: "chain", calls: []string{"a", "~a", "~b", "~c", "a", "b", "c"}, asks: []*fhAsk{{"c", "m0", 'w', 1}}},
+		{variant: "chain", calls: []string{"a", "b", "a", "~b", "a", "c"}, asks: []*fhAsk{{"b", "m1", 'r', 2}}},
+		{variant: "chain", fail: map[string]int{"a": 1}, calls: []string{"a", "a", "a", "~a", "~b", "~c"}, asks: []*fhAsk{{"c", "m0", 'n', 1}}},
+		// inside a cycle: the early reference of x has been handed to y when Init of y fails
+		{variant: "cycle", calls: []string{"x", "~x", "~y", "x", "y"}, asks: []*fhAsk{{"y", "m0", 'w', 1}}},
+		{variant: "cycle", calls: []string{"y", "y", "x", "~x", "~y"}, asks: []*fhAsk{{"y", "m0", 'r', 1}, {"x", "y", 'r', 9}}},
+		{variant: "diamond", calls: []string{"a", "a", "~z", "r", "~a", "~l", "~r"}, asks: []*fhAsk{{"z", "m0", 'w', 1}}},
+		// re-entrant: Init of p asks for q, Init of q asks for the unknown name (q, then r)
+		{variant: "loose", calls: []string{"p", "~p", "~q", "p", "q"}, asks: []*fhAsk{{"p", "q", 'w', 9}, {"q", "m0", 'r', 1}}},
+		{variant: "loose", calls: []string{"p", "q", "r", "~r", "~q", "r", "q"}, asks: []*fhAsk{{"p", "q", 's', 9}, {"q", "r", 'w', 9}, {"r", "m1", 'n', 1}}},
+		{variant: "loose", calls: []string{"p", "~p", "~q", "~r", "p", "r"}, asks: []*fhAsk{{"p", "q", 'r', 9}, {"q", "r", 'r', 9}, {"r", "m0", 'r', 1}, {"r", "p", 'w', 9}}},
+		// a required wire point names the component without definition: never creatable, never handed out
+		{variant: "wmiss", calls: []string{"v", "~v", "~w", "w", "v", "m0"}},
+		{variant: "wmiss", calls: []string{"v", "v", "~v", "~w"}, asks: []*fhAsk{{"v", "m1", 'w', 1}}},
 	} {
+		if h.fail == nil {
+			h.fail = map[string]int{}
+		}
 		for _, n := range fhVariants[h.variant] {
 			if _, ok := h.fail[n]; !ok {
 				h.fail[n] = 0
